@@ -4,12 +4,15 @@
 use crate::core::Ctx;
 use std::path::PathBuf;
 
+pub mod c08l;
 pub mod c09;
+pub mod c10;
+pub mod c11;
 pub mod c28;
 
 pub type RunFn = fn(Ctx, Option<PathBuf>) -> i32;
 
-pub const REGISTRY: &[(&str, RunFn)] = &[("C09", c09::run), ("C28", c28::run)];
+pub const REGISTRY: &[(&str, RunFn)] = &[("C08L", c08l::run), ("C09", c09::run), ("C10", c10::run), ("C11", c11::run), ("C28", c28::run)];
 
 /// Hidden subcommands (`lv __xyz ...`) used by checks that need a fresh
 /// process linking the lalrpop library.
